@@ -2,7 +2,7 @@
 //! `render()` (or the Batch / Camera front doors), print buffers and statistics.
 //!
 //! case (key=value tokens, any order before the data sections):
-//!   scene door=<r|b|B|c|C> tgt=<fb|cb> dims=<W>x<H> vp=<l>,<t>,<r>,<b> cull=<n|f|b> sort=<n|f|b>
+//!   scene door=<r|b|B|M|c|C> tgt=<fb|cb|fs|cs> dims=<W>x<H> vp=<l>,<t>,<r>,<b> cull=<n|f|b> sort=<n|f|b>
 //!         test=<n|l|g|e> cw=<0|1> dw=<0|1> sh=<0|1> k=<1|2|3|4> sel=<0..k-1>   (k: 1 f32, 2 Vec2, 3 (Vec2, f32), 4 Color4f)
 //!         proj=<none | persp,<focal>,<near>,<far> | ortho,<l>,<b>,<n>,<r>,<t>,<f>> zinit=<f32 bits>
 //!         v <nv> <nv*(4+k) words>  t <nt> <nt*3 idx>  h <ncalls> { <sort> <m> <m idx> }*
@@ -40,6 +40,8 @@ pub enum Proj {
 pub struct Scene {
     pub door: char,
     pub tgt_fb: bool,
+    /// the target is a strided sub-view (MutSlice2) of a larger buffer: tgt=fs / tgt=cs
+    pub strided: bool,
     pub w: u32,
     pub h: u32,
     pub vp: [u32; 4],
@@ -60,7 +62,7 @@ pub struct Scene {
 
 pub fn parse_scene(t: &[&str]) -> Scene {
     let mut s = Scene {
-        door: 'r', tgt_fb: true, w: 8, h: 8, vp: [0, 0, 8, 8], cull: 'n', sort: 'n', test: 'l',
+        door: 'r', tgt_fb: true, strided: false, w: 8, h: 8, vp: [0, 0, 8, 8], cull: 'n', sort: 'n', test: 'l',
         cw: true, dw: true, sh: 0, k: 1, sel: 0, proj: Proj::None, zinit: 0.0,
         verts: vec![], tris: vec![], hist: vec![],
     };
@@ -70,7 +72,10 @@ pub fn parse_scene(t: &[&str]) -> Scene {
         if let Some((key, val)) = tok.split_once('=') {
             match key {
                 "door" => s.door = val.chars().next().unwrap(),
-                "tgt" => s.tgt_fb = val == "fb",
+                "tgt" => {
+                    s.tgt_fb = val == "fb" || val == "fs";
+                    s.strided = val == "fs" || val == "cs";
+                }
                 "dims" => {
                     let (a, b) = val.split_once('x').unwrap();
                     s.w = a.parse().unwrap();
@@ -185,6 +190,9 @@ pub struct Output {
 enum Tgt {
     Fb(Framebuf<Buf2<u32>, Buf2<f32>>),
     Cb(Buf2<u32>),
+    /// strided views into larger buffers (margins: 1 left/top, 2 right, 1 bottom)
+    FbS(Buf2<u32>, Buf2<f32>),
+    CbS(Buf2<u32>),
 }
 
 /// Clip-space vertices of the scene (library projection applied when proj != none).
@@ -203,6 +211,37 @@ pub fn clip_verts(s: &Scene) -> Vec<[f32; 4]> {
     }
 }
 
+/// The w×h region at (1,1) of a (w+3)×(h+2) buffer, and whether every cell outside it still holds `fill`
+/// (bitwise, so NaN fills compare equal to themselves).
+fn inner_region<T: Copy + ToBits>(b: &Buf2<T>, w: u32, h: u32, fill: T) -> (Vec<T>, bool) {
+    let mut inner = vec![];
+    let mut ok = true;
+    for y in 0..h + 2 {
+        for x in 0..w + 3 {
+            let v = b[[x, y]];
+            if x >= 1 && x <= w && y >= 1 && y <= h {
+                inner.push(v);
+            } else if v.bits() != fill.bits() {
+                ok = false;
+            }
+        }
+    }
+    (inner, ok)
+}
+pub trait ToBits {
+    fn bits(&self) -> u32;
+}
+impl ToBits for u32 {
+    fn bits(&self) -> u32 {
+        *self
+    }
+}
+impl ToBits for f32 {
+    fn bits(&self) -> u32 {
+        self.to_bits()
+    }
+}
+
 /// Runs the whole history through the chosen front door.
 pub fn run_scene(s: &Scene, door: char) -> Output {
     let cv = clip_verts(s);
@@ -210,7 +249,17 @@ pub fn run_scene(s: &Scene, door: char) -> Output {
     let sel = s.sel;
     let variant = s.sh;
     let to_screen = viewport(pt2(s.vp[0], s.vp[1])..pt2(s.vp[2], s.vp[3]));
-    let mut tgt = if s.tgt_fb {
+    let mut tgt = if s.strided {
+        let mut c = Buf2::new((s.w + 3, s.h + 2));
+        c.fill(SENTINEL_COLOR);
+        if s.tgt_fb {
+            let mut d = Buf2::new((s.w + 3, s.h + 2));
+            d.fill(s.zinit);
+            Tgt::FbS(c, d)
+        } else {
+            Tgt::CbS(c)
+        }
+    } else if s.tgt_fb {
         let mut c = Buf2::new((s.w, s.h));
         c.fill(SENTINEL_COLOR);
         let mut d = Buf2::new((s.w, s.h));
@@ -227,7 +276,7 @@ pub fn run_scene(s: &Scene, door: char) -> Output {
         let tris: Vec<Tri<usize>> = idx.iter().map(|&i| Tri(s.tris[i])).collect();
         let discard = |px: f32, py: f32| variant == 1 && ((px.floor() as i64 + py.floor() as i64) % 2 == 0);
         macro_rules! go {
-            ($verts:expr, $fs:expr, $VT:ty) => {{
+            ($verts:expr, $fs:expr, $VT:ty, $AT:ty) => {{
                 let verts: Vec<$VT> = $verts;
                 let vs = |v: $VT, _: ()| v;
                 let shader = Shader::new(vs, $fs);
@@ -260,6 +309,27 @@ pub fn run_scene(s: &Scene, door: char) -> Output {
                                     .context(&ctx)
                                     .render()
                             }
+                            // the `Batch::mesh` front door: a Mesh whose vertex attribute smuggles (w, attr);
+                            // the vertex shader rebuilds the clip-space vertex
+                            'M' => {
+                                let mverts: Vec<re::geom::Vertex3<(f32, $AT)>> = verts
+                                    .iter()
+                                    .map(|v| vertex(pt3(v.pos.x(), v.pos.y(), v.pos.z()), (v.pos.w(), v.attrib.clone())))
+                                    .collect();
+                                let mesh = re::geom::Mesh::new(tris.clone(), mverts);
+                                let vs2 = |v: re::geom::Vertex3<(f32, $AT)>, _: ()| -> $VT {
+                                    vertex([v.pos.x(), v.pos.y(), v.pos.z(), v.attrib.0].into(), v.attrib.1)
+                                };
+                                let shader2 = Shader::new(vs2, $fs);
+                                Batch::new()
+                                    .mesh(&mesh)
+                                    .uniform(())
+                                    .shader(shader2)
+                                    .viewport(to_screen)
+                                    .target($t)
+                                    .context(&ctx)
+                                    .render()
+                            }
                             'c' | 'C' => {
                                 // identity camera: vertices are already in clip space; door C configures the
                                 // viewport BEFORE the mode (the builder calls commute)
@@ -284,6 +354,15 @@ pub fn run_scene(s: &Scene, door: char) -> Output {
                 match &mut tgt {
                     Tgt::Fb(fb) => with_target!(fb),
                     Tgt::Cb(cb) => with_target!(cb),
+                    Tgt::FbS(c, d) => {
+                        let rect = (1..s.w + 1, 1..s.h + 1);
+                        let mut fb = Framebuf { color_buf: c.slice_mut(rect.clone()), depth_buf: d.slice_mut(rect) };
+                        with_target!(&mut fb)
+                    }
+                    Tgt::CbS(c) => {
+                        let mut view = c.slice_mut((1..s.w + 1, 1..s.h + 1));
+                        with_target!(&mut view)
+                    }
                 }
             }};
         }
@@ -295,7 +374,8 @@ pub fn run_scene(s: &Scene, door: char) -> Output {
             go!(
                 cv.iter().zip(&s.verts).map(|(p, v)| vertex((*p).into(), v[4])).collect(),
                 fs,
-                V1
+                V1,
+                f32
             );
         } else if s.k == 2 {
             let fs = |f: Frag<Vec2>| {
@@ -305,7 +385,8 @@ pub fn run_scene(s: &Scene, door: char) -> Output {
             go!(
                 cv.iter().zip(&s.verts).map(|(p, v)| vertex((*p).into(), vec2(v[4], v[5]))).collect(),
                 fs,
-                V2
+                V2,
+                Vec2
             );
         } else if s.k == 3 {
             // a TUPLE varying (Vec2, f32): the pair impls of Lerp / Vary / ZDiv
@@ -317,7 +398,8 @@ pub fn run_scene(s: &Scene, door: char) -> Output {
             go!(
                 cv.iter().zip(&s.verts).map(|(p, v)| vertex((*p).into(), (vec2(v[4], v[5]), v[6]))).collect(),
                 fs,
-                V3
+                V3,
+                (Vec2, f32)
             );
         } else {
             // a COLOUR varying (Color4f): the colour impls, alpha included
@@ -328,7 +410,8 @@ pub fn run_scene(s: &Scene, door: char) -> Output {
             go!(
                 cv.iter().zip(&s.verts).map(|(p, v)| vertex((*p).into(), rgba(v[4], v[5], v[6], v[7]))).collect(),
                 fs,
-                V4
+                V4,
+                Color4f
             );
         }
         let st = ctx.stats.borrow();
@@ -341,6 +424,17 @@ pub fn run_scene(s: &Scene, door: char) -> Output {
     match tgt {
         Tgt::Fb(fb) => Output { stats: total, color: fb.color_buf.data().to_vec(), depth: Some(fb.depth_buf.data().to_vec()) },
         Tgt::Cb(cb) => Output { stats: total, color: cb.data().to_vec(), depth: None },
+        Tgt::FbS(c, d) => {
+            let (color, ok1) = inner_region(&c, s.w, s.h, SENTINEL_COLOR);
+            let (depth, ok2) = inner_region(&d, s.w, s.h, s.zinit);
+            assert!(ok1 && ok2, "a cell of the backing buffer outside the target view was modified");
+            Output { stats: total, color, depth: Some(depth) }
+        }
+        Tgt::CbS(c) => {
+            let (color, ok) = inner_region(&c, s.w, s.h, SENTINEL_COLOR);
+            assert!(ok, "a cell of the backing buffer outside the target view was modified");
+            Output { stats: total, color, depth: None }
+        }
     }
 }
 
